@@ -149,6 +149,13 @@ def condLeaf (t : String) : Option Cond :=
     let (e, r) ← gexpr (rest.length + 1) rest
     if !r.isEmpty then none
     else if side == "L" then some (Cond.cmpE o e b true) else if side == "R" then some (Cond.cmpE o e b false) else none
+  | "cmpr" :: o :: reg :: side :: rest => do
+    -- cmpr:<op>:<rX|rY>:<L|R>:<tree> : `(e) op X` (L) / `X op (e)` (R)
+    let o ← cop o
+    let y ← (if reg == "rX" then some false else if reg == "rY" then some true else none)
+    let (e, r) ← gexpr (rest.length + 1) rest
+    if !r.isEmpty then none
+    else if side == "L" then some (Cond.cmpR o e y true) else if side == "R" then some (Cond.cmpR o e y false) else none
   | "te" :: rest => do
     let (e, r) ← gexpr (rest.length + 1) rest
     if r.isEmpty then some (Cond.truthE e) else none
